@@ -1,7 +1,7 @@
 (* C13 - Multi-threaded CLI pipelines are correct under every thread schedule. *)
 From Coq Require Import ZArith List Lia Bool Permutation.
 From LZ4V Require Import Gen.Consts Gen.TPoolSites Model.WriteReg Model.TPool Model.Pipeline
-  Proofs.WriteRegProofs Proofs.TPoolProofs Proofs.DecodeRingProofs Proofs.CompressProofs Proofs.C13Inst.
+  Proofs.WriteRegProofs Proofs.TPoolProofs Proofs.DecodeRingProofs Proofs.CompressProofs Proofs.NeverFullProofs Proofs.C13Inst.
 Import ListNotations.
 Local Open Scope Z_scope.
 
@@ -196,3 +196,67 @@ Example C13_sequential_equiv_nonvacuous :
   | None => False
   end.
 Proof. vm_compute. reflexivity. Qed.
+
+(* ------------------------------------------------------------------------------------------------
+   Deadlock freedom, the part that is proved (for every N >= 1, every number of chunks, every schedule):
+   tpool_compress_never_full - with a tPool depth >= 2 the queue holds at most 2 jobs (one reader job and one
+   compression job), every TPool_submitJob into tPool finds room, and the only thread that ever waits on tPool's
+   queuePushCond is the main thread (tid 0, inside TPool_jobsCompleted);
+   waiters_homogeneous - when the main thread waits on wPool's queuePushCond, tPool is quiescent, so no compression
+   job (the other kind of waiter on that condition) exists.
+   Hence on each condition variable all simultaneous waiters wait for the same predicate and a
+   pthread_cond_signal cannot be absorbed by the wrong kind of waiter; C13_depth1_deadlock shows what happens otherwise. *)
+Theorem C13_tpool_compress_never_full :
+  forall c : cfg,
+    (c_kind c = CompLegacy \/ (c_kind c = CompLZ4F /\ (1 <= c_nfull c)%nat)) ->
+    (1 <= c_N c)%nat -> (2 <= c_tdepth c)%nat -> (1 <= c_wdepth c)%nat ->
+    forall (sched : list pick) (st : state),
+      run c (init_state c) sched = Some st ->
+      (length (queued (s_pt st)) <= 2)%nat /\ (q_len (s_pt st) <= 2)%nat /\
+      (forall t, In t (push_w (s_pt st)) -> t = 0%nat).
+Proof. exact never_full. Qed.
+Print Assumptions C13_tpool_compress_never_full.
+
+Theorem C13_waiters_homogeneous :
+  forall c : cfg,
+    (c_kind c = CompLegacy \/ (c_kind c = CompLZ4F /\ (1 <= c_nfull c)%nat)) ->
+    (1 <= c_N c)%nat -> (2 <= c_tdepth c)%nat -> (1 <= c_wdepth c)%nat ->
+    forall (sched : list pick) (st : state),
+      run c (init_state c) sched = Some st ->
+      In 0%nat (push_w (s_pw st)) -> queued (s_pt st) = [] /\ n_busy (s_pt st) = 0%nat.
+Proof. exact waiters_homogeneous. Qed.
+Print Assumptions C13_waiters_homogeneous.
+
+(* instances at the generated depths: TPool_create(nbWorkers, 4) -> 1 in the C source breaks these two *)
+Theorem C13_never_full_legacy :
+  forall (N nfull : nat) (last : bool) (sched : list pick) (st : state), (1 <= N)%nat ->
+    run (cl_cfg N nfull last) (init_state (cl_cfg N nfull last)) sched = Some st ->
+    (length (queued (s_pt st)) <= 2)%nat /\ (q_len (s_pt st) <= 2)%nat /\ (forall t, In t (push_w (s_pt st)) -> t = 0%nat) /\
+    (In 0%nat (push_w (s_pw st)) -> queued (s_pt st) = [] /\ n_busy (s_pt st) = 0%nat).
+Proof. exact never_full_legacy. Qed.
+Print Assumptions C13_never_full_legacy.
+
+Theorem C13_never_full_lz4f :
+  forall (N nfull : nat) (last : bool) (sched : list pick) (st : state), (1 <= N)%nat -> (1 <= nfull)%nat ->
+    run (cf_cfg N nfull last) (init_state (cf_cfg N nfull last)) sched = Some st ->
+    (length (queued (s_pt st)) <= 2)%nat /\ (q_len (s_pt st) <= 2)%nat /\ (forall t, In t (push_w (s_pt st)) -> t = 0%nat) /\
+    (In 0%nat (push_w (s_pw st)) -> queued (s_pt st) = [] /\ n_busy (s_pt st) = 0%nat).
+Proof. exact never_full_lz4f. Qed.
+Print Assumptions C13_never_full_lz4f.
+
+(* What is NOT proved (kept visible): progress and termination for unbounded N / chunk counts.
+   The bounded exhaustive exploration run by the check (extracted model at the generated constants, N <= 3,
+   <= 4 chunks, every interleaving and wake-up choice) finds no deadlock; it is a supplement, not a theorem. *)
+Definition C13_no_deadlock_full_statement : Prop :=
+  forall c : cfg,
+    (c_kind c = CompLegacy \/ (c_kind c = CompLZ4F /\ (1 <= c_nfull c)%nat)) ->
+    (1 <= c_N c)%nat -> (2 <= c_tdepth c)%nat -> (1 <= c_wdepth c)%nat ->
+    forall (sched : list pick) (st : state),
+      run c (init_state c) sched = Some st -> final st = false ->
+      exists pk st', pstep c st pk = Some st'.
+Definition C13_terminates_full_statement : Prop :=
+  forall c : cfg,
+    (c_kind c = CompLegacy \/ (c_kind c = CompLZ4F /\ (1 <= c_nfull c)%nat)) ->
+    (1 <= c_N c)%nat -> (2 <= c_tdepth c)%nat -> (1 <= c_wdepth c)%nat ->
+    exists bound : nat, forall (sched : list pick) (st : state),
+      run c (init_state c) sched = Some st -> (length sched <= bound)%nat.
